@@ -585,3 +585,16 @@ pub fn id_pool_lookup(rng: &mut Rng, n: usize) -> Vec<u64> {
     }
     v
 }
+
+/// like `value`, but in the R regime one value in 15 has an extreme magnitude (tiny or huge) so that
+/// partial products can fall below EPSILON or far above 1 while full products stay ordinary
+pub fn value_x(rng: &mut Rng, regime: Regime) -> f64 {
+    if regime == Regime::R && rng.chance(1, 15) {
+        return *rng.pick(&[1e-20, 1e20, -1e-20, -1e20, 1e-9, 2.5e18, 1e-12, 1e12, 4e-17, 2.5e16]);
+    }
+    value(rng, regime)
+}
+
+pub fn gen_state_x(rng: &mut Rng, ids: &BTreeSet<u64>, regime: Regime) -> v1::State {
+    state(ids.iter().map(|i| (*i, value_x(rng, regime))))
+}
